@@ -713,20 +713,37 @@ fn blackhole_part(args: &Args, report: &mut Report) {
             cfg.happy_eyeballs_timeout = Some(Duration::from_millis(300));
             cfg.connect_timeout = Some(Duration::from_secs(4));
             cfg.happy_eyeballs_concurrency = [Some(1), Some(2), None][round % 3];
-            let t: TcpTransport = TcpTransport::builder().with_config(cfg.clone()).with_gai_resolver().build();
-            let t0 = Instant::now();
-            let r = tokio::time::timeout(Duration::from_secs(8), t.connect_to_addrs([hole])).await;
-            out.push(("single-black-hole", match r { Err(_) => Err("WATCHDOG".into()), Ok(Ok(s)) => Ok(s.peer_addr().ok()), Ok(Err(e)) => Err(e.to_string()) }, t0.elapsed().as_millis()));
+            // late-side judgements are repeated up to three times: a loaded machine can delay one run, a defect delays all
+            for attempt in 0..3 {
+                let t: TcpTransport = TcpTransport::builder().with_config(cfg.clone()).with_gai_resolver().build();
+                let t0 = Instant::now();
+                let r = tokio::time::timeout(Duration::from_secs(8), t.connect_to_addrs([hole])).await;
+                let ms = t0.elapsed().as_millis();
+                let res = match r { Err(_) => Err("WATCHDOG".into()), Ok(Ok(s)) => Ok(s.peer_addr().ok()), Ok(Err(e)) => Err(e.to_string()) };
+                let fine = ms <= 300 + 1200;
+                if fine || attempt == 2 {
+                    out.push(("single-black-hole", res, ms));
+                    break;
+                }
+            }
             // (b) black hole first, listening address second, one attempt at a time: the second attempt is
-            //     released by the stagger tick (timeout / n = 300 ms), not earlier, and wins
+            //     released by the stagger tick (timeout / n = 1000 ms), not earlier, and wins
             let mut cfg = TcpTransportConfig::default();
-            cfg.happy_eyeballs_timeout = Some(Duration::from_millis(600));
-            cfg.connect_timeout = Some(Duration::from_secs(4));
+            cfg.happy_eyeballs_timeout = Some(Duration::from_millis(2000));
+            cfg.connect_timeout = Some(Duration::from_secs(6));
             cfg.happy_eyeballs_concurrency = Some(1);
-            let t: TcpTransport = TcpTransport::builder().with_config(cfg).with_gai_resolver().build();
-            let t0 = Instant::now();
-            let r = tokio::time::timeout(Duration::from_secs(8), t.connect_to_addrs([hole, good_addr])).await;
-            out.push(("black-hole-then-listening", match r { Err(_) => Err("WATCHDOG".into()), Ok(Ok(s)) => Ok(s.peer_addr().ok()), Ok(Err(e)) => Err(e.to_string()) }, t0.elapsed().as_millis()));
+            for attempt in 0..3 {
+                let t: TcpTransport = TcpTransport::builder().with_config(cfg.clone()).with_gai_resolver().build();
+                let t0 = Instant::now();
+                let r = tokio::time::timeout(Duration::from_secs(10), t.connect_to_addrs([hole, good_addr])).await;
+                let ms = t0.elapsed().as_millis();
+                let res = match r { Err(_) => Err("WATCHDOG".into()), Ok(Ok(s)) => Ok(s.peer_addr().ok()), Ok(Err(e)) => Err(e.to_string()) };
+                let fine = res.is_ok() && ms <= 2000 + 1200;
+                if fine || attempt == 2 {
+                    out.push(("black-hole-then-listening", res, ms));
+                    break;
+                }
+            }
             drop(fillers);
             drop(listener);
             Some((out, good_addr))
@@ -771,16 +788,16 @@ fn blackhole_part(args: &Args, report: &mut Report) {
                     "single-black-hole" => {
                         // deadline 300 ms; generous one-sided margin for a loaded machine
                         if ms > 300 + 1200 {
-                            p.violation("public:deadline-not-enforced:single-candidate", format!("{name}: finished after {ms} ms with an overall deadline of 300 ms (connect_timeout 4 s)"), replay.clone());
+                            p.violation("public:deadline-not-enforced:single-candidate", format!("{name}: finished after {ms} ms with an overall deadline of 300 ms (connect_timeout 4 s; best of three runs)"), replay.clone());
                         }
                     }
                     _ => {
-                        // stagger = 600 ms / 2 = 300 ms: the listening candidate must not be tried before ~300 ms
-                        if result.is_ok() && ms + 60 < 300 {
-                            p.violation("public:second-attempt-before-stagger-delay", format!("{name}: connected after {ms} ms although the stagger delay is 300 ms and the first candidate had not failed"), replay.clone());
+                        // stagger = 2000 ms / 2 = 1000 ms: the listening candidate must not be tried before ~1000 ms
+                        if result.is_ok() && ms + 60 < 1000 {
+                            p.violation("public:second-attempt-before-stagger-delay", format!("{name}: connected after {ms} ms although the stagger delay is 1000 ms and the first candidate had not failed"), replay.clone());
                         }
-                        if ms > 600 + 1200 {
-                            p.violation("public:deadline-not-enforced:two-candidates", format!("{name}: finished after {ms} ms with an overall deadline of 600 ms"), replay.clone());
+                        if ms > 2000 + 1200 {
+                            p.violation("public:deadline-not-enforced:two-candidates", format!("{name}: finished after {ms} ms with an overall deadline of 2000 ms (best of three runs)"), replay.clone());
                         }
                     }
                 }
